@@ -544,6 +544,10 @@ func mutants(name string, base map[string]any) []mutant {
 				mm := deepCopy(m).(map[string]any)
 				mm["zz_unknown"] = 1
 				add("unknown-key", p, nil, mutate(base, p, mm), true)
+				// an unknown key written without a value ("flush_time:" / "step: ~")
+				mmNil := deepCopy(m).(map[string]any)
+				mmNil["zz_unknown"] = nil
+				add("unknown-key-null", p, nil, mutate(base, p, mmNil), true)
 				if len(m) > 0 {
 					// a misspelling of an existing key
 					ks := make([]string, 0, len(m))
